@@ -25,8 +25,9 @@ PROPERTIES = ['C05']
 XFORMS = ['copy', 'slice', 'apply', 'stack', 'subset', 'renamevar', 'renamedim',
           'insertdim', 'rmsingleton', 'reorder', 'mask', 'eval', 'binop',
           'interp', 'from_ncf', 'getvarpnc', 'interpsigma', 'pncexpr', 'slice_dim',
-          'reduce_dim']
-# (mask_vals is an in-place helper: it edits and returns the file it was given)
+          'reduce_dim', 'merge', 'stack_files', 'removesingleton_fn', 'pncrename',
+          'manglenames', 'pncfunc', 'convolve_dim', 'splitdim']
+# (mask_vals, mesh_dim and add_attr are in-place helpers; mask_vals is an in-place helper: it edits and returns the file it was given)
 # the property's queries: time decoding, value-to-index lookup, dump/repr,
 # save (getVarlist/audit_meta repair metadata by design and are not queries
 # in the property's sense)
@@ -395,6 +396,31 @@ def _gen_xform(rng, st, s, name, live):
     elif name == 'mask_vals':
         op['def'] = '%s,%s' % (rng.choice(['greater', 'less', 'values', 'equal']),
                                rng.choice(['0', '1000', '2002.5']))
+    elif name in ('merge', 'stack_files'):
+        rel = [x for x in live if _root(st, x) == _root(st, s)]
+        op['other'] = [rng.choice(rel).id]
+        op['dim'] = rng.choice(dims)[0] if dims else 'time'
+    elif name == 'removesingleton_fn':
+        op['dim'] = rng.choice(dims)[0] if dims else 'x'
+    elif name == 'pncrename':
+        if rng.random() < 0.5 and vnames:
+            op['def'] = 'v,%s,RN%d' % (rng.choice(vnames), rng.randrange(100))
+        else:
+            op['def'] = 'd,%s,RD%d' % (rng.choice(dims)[0] if dims else 'x', rng.randrange(100))
+    elif name == 'pncfunc':
+        op['func'] = rng.choice(['abs', 'sqrt', 'negative'])
+    elif name == 'convolve_dim':
+        op['def'] = '%s,%s,0.5,0.5' % (rng.choice(dims)[0] if dims else 'x',
+                                       rng.choice(['valid', 'same', 'full']))
+    elif name == 'splitdim':
+        cands = [(d, n) for d, n in dims if n in (4, 6)]
+        if cands:
+            d, n = rng.choice(cands)
+            op['dim'] = d
+            op['new'] = ['SA', 'SB']
+            op['shape'] = [2, n // 2]
+        else:
+            op['dim'] = None
     return op
 
 
@@ -644,6 +670,39 @@ def _do_xform(st, s, op):
     elif name == 'mask_vals':
         from PseudoNetCDF.sci_var import mask_vals
         r = mask_vals(f, op['def'])
+    elif name in ('merge', 'stack_files'):
+        from PseudoNetCDF.sci_var import merge, stack_files
+        others = []
+        for oid in op['other']:
+            o = st.slots.get(oid)
+            if o is None or o.life != 'open':
+                return None, 'noop'
+            others.append(o.obj)
+            src.append(oid)
+        if name == 'merge':
+            r = merge([f] + others)
+        else:
+            r = stack_files([f] + others, op['dim'])
+    elif name == 'removesingleton_fn':
+        from PseudoNetCDF.sci_var import removesingleton
+        r = removesingleton(f, op['dim'])
+    elif name == 'pncrename':
+        from PseudoNetCDF.sci_var import pncrename
+        r = pncrename(f, op['def'])
+    elif name == 'manglenames':
+        from PseudoNetCDF.sci_var import manglenames
+        r = manglenames(f)
+    elif name == 'pncfunc':
+        from PseudoNetCDF.core._functions import pncfunc
+        r = pncfunc(getattr(np, op['func']), f, verbose=0)
+    elif name == 'convolve_dim':
+        from PseudoNetCDF.sci_var import convolve_dim
+        r = convolve_dim(f, op['def'])
+    elif name == 'splitdim':
+        if not op.get('dim'):
+            return None, 'noop'
+        from PseudoNetCDF.sci_var import splitdim
+        r = splitdim(f, op['dim'], op['new'], op['shape'])
     else:
         raise HarnessError('unknown xform %s' % name)
     if r is None or r is f:
